@@ -43,6 +43,31 @@ def run (ctx):
         if isinstance(v_, ast.Attribute) and norm(v_.value) == 'self': names_.add(v_.attr)
   if len(names_) == 1: BUF = list(names_)[0]
 
+  # ---- D0 what a packet-in announces is a freshly allocated buffer (or none) ------------------------------------------
+  # an id looked up for a packet that is *already* stored belongs to a slot some use-and-free is about to release: announcing it hands
+  # the controller an id that identifies nothing by the time it is used
+  n_ann = 0
+  for f_ in sw.methods.values():
+    for c_ in calls_in(f_.node, nested=True):
+      if call_name(c_) != 'send_packet_in' or not isinstance(c_.func, ast.Attribute): continue
+      a_ = kwarg(c_, 'buffer_id', 1)
+      if a_ is None: continue
+      n_ann += 1
+      def fresh (e_, depth=0):
+        if isinstance(e_, ast.Constant) and e_.value is None: return True
+        if isinstance(e_, ast.Call) and call_name(e_) == alloc.name: return True
+        if isinstance(e_, ast.IfExp): return fresh(e_.body, depth) and fresh(e_.orelse, depth)
+        if isinstance(e_, ast.Name) and depth < 4:
+          if e_.id in f_.params and not q.reaching_assign(f_.node, e_.id): return True          # handed in by the caller (checked at that call)
+          ds_ = [v_ for v_, st_, k_ in q.reaching_assign(f_.node, e_.id)]
+          # also assignments inside nested closures of the same method
+          return bool(ds_) and all(v_ is not None and fresh(v_, depth + 1) for v_ in ds_)
+        return False
+      good = fresh(a_)
+      ctx.ob('R-OWN', f_, "the buffer id a packet-in announces comes from the allocator (`%s`)" % norm(c_)[:50], good, "allocator result / None" if good else
+             "`%s` announces an id that does not come from %s (origins of `%s`: %s): e.g. the id of a slot that already holds this packet - a slot the use-and-free routine releases right after the actions ran, so the "
+             "announced id identifies no stored packet when the controller uses it" % (norm(c_)[:60], alloc.name, norm(a_), [norm(v_)[:40] for v_, st_, k_ in q.reaching_assign(f_.node, a_.id)] if isinstance(a_, ast.Name) else norm(a_)), (sw.module, c_), 'D1')
+  ctx.floor('packet-in announcement sites', n_ann, 2)
   # ---- D1 ownership -------------------------------------------------------
   writers = 0
   allowed = {alloc.qual, use.qual}
